@@ -20,9 +20,12 @@ def run(rep, tier, seed, replay):
                        "as integers), epoll event order (one batch = one read event, replies written afterwards), TCP delivery of a batch "
                        "in one segment, choke/keep-alive/have traffic (filtered out), encryption (plain connections), write blocking "
                        "(send budget is all-or-nothing per connection: blocked / unlimited), Close of a connection that is out of the read set",
-                       "fetcher side (magnet): coq/C20/Fetcher.v is a specification-level model of the acceptance gate (SHA-1 a Section variable); it is tied to "
-                       "the code by the python oracle on harness/c20f.cc runs (done => file identical to the metadata named by the magnet), not by output equality; "
-                       "the delegator's request order and the transfer/leader logic are not modelled",
+                       "fetcher side (magnet): coq/C20/FetcherX.v is compared by output equality on single-provider cases with the delegator / RequestList "
+                       "scheduling as an ORACLE (the requests the implementation wrote in each op are given to the model, which checks admissibility and tracks the "
+                       "outstanding set); several providers at once (leader / non-leader transfers) are oracle-only; coq/C20/Fetcher.v is the specification-level gate; "
+                       "the model's hash is MD5 (OCaml Digest) where the code uses SHA-1: both are used only as 'equal iff same bytes'",
+                       "RC4 streams: a third of the provider-side connections are MSE-negotiated (harness/common/mseinit.h, own RC4); the model speaks plaintext, the harness "
+                       "compares the decrypted stream, partial writes are forced by w<i>:drip<k>",
                        "pad bytes of the info dictionary are a fixed arithmetic function of the offset, implemented three times (C++, OCaml, python)",
                        "python property oracle gen/c20.py:oracle evaluated on the implementation's output"]))
     model = ltv.build_model("C20")
@@ -77,14 +80,28 @@ def run(rep, tier, seed, replay):
     implf = ltv.build_harness("c20f", ["c20f.cc", "common/session.cc"], libs=["-lcrypto"])
     fcases = freplay if replay else G.gen_f(seed, tier)
     fo = ltv.run_sharded(implf, [c[2:] for c in fcases], timeout=900)
-    fdone = fclasses = 0
+    # the executable fetcher model (coq/C20/FetcherX.v) gets the delegator's decisions as an oracle: the requests the
+    # implementation wrote during each op; everything else (sizes, closes, ids, acceptance, completion, file) must be equal
+    fmi = [G.fetch_model_input(c, fo[i] if i < len(fo) else "") for i, c in enumerate(fcases)]
+    fm = ltv.run_sharded(model, fmi)
+    fdone = fsingle = fmism = 0
     fcl = {}
     for i, case in enumerate(fcases):
         o = fo[i] if i < len(fo) else "MISSING"
+        m = fm[i] if i < len(fm) else "MISSING"
         fdone += 1 if "done=1" in o else 0
-        for kl, text in G.oracle_f(case, o):
+        viol = G.oracle_f(case, o)
+        for kl, text in viol:
             fcl[kl] = fcl.get(kl, 0) + 1
-            rep.violation(text, case=case, model="(oracle only)", impl=o, theorem="property oracle C20 fetcher (magnet_completes_only_verified, ext ids of requests)", klass=kl)
+            rep.violation(text, case=case, model=m, impl=o, theorem="property oracle C20 fetcher (magnet_completes_only_verified, ext ids of requests)", klass=kl)
+        if G.single_provider(case):
+            fsingle += 1
+            if m != o and not viol:
+                fmism += 1
+                mism += 1
+                rep.violation("correspondence broken (fetcher, single provider): model and implementation differ on this input (property oracle holds on it)",
+                              case=case, model=m, impl=o, theorem="correspondence C20 fetcher (sizes, closes, ids, acceptance, completion; delegator = oracle)",
+                              found_input=False)
     if not coq["ok"]:
         rep.violation("C20 proof obligations no longer check (%d/%d): %s %s" % (
             coq["discharged"], coq["obligations"], "; ".join(coq["lint"] + coq["bad_axioms"]), coq["log"][-1500:]),
@@ -92,14 +109,15 @@ def run(rep, tier, seed, replay):
     stats = dict(stats)
     stats.update(metadata_replies_seen=nmeta, pex_messages_seen=npex, pex_toggles_seen=ntoggle,
                  connections_closed_by_library=nclosed, oracle_classes=classes, unmodelled_cases=unmodelled,
-                 fetcher_cases=len(fcases), fetcher_completed=fdone, fetcher_oracle_classes=fcl)
+                 fetcher_cases=len(fcases), fetcher_completed=fdone, fetcher_oracle_classes=fcl,
+                 fetcher_single_provider_compared=fsingle, fetcher_mismatches=fmism)
     rep.cov.update(evaluations=len(cases) + len(fcases), distinct_nontrivial=len(nontrivial),
                    rule="cases = corpus + hand list + full piece sweep at every info size 16384k+{-1,0,1} (k<=3 quick, <=5 thorough) x private/public "
                         "+ random provider sweeps / request bursts / id-map handshakes / multi-peer PEX histories / blocked-write (send budget) histories / malformed streams "
                         "(+ every op list of length 3 over an 8-op alphabet in thorough); "
                         "non-trivial = distinct case in which the implementation sent at least one ut_metadata or ut_pex message",
                    samples=samples, input_distribution=stats, mismatches=mism, exhaustive=(tier == "thorough"))
-    rep.assumptions += ["plain (unencrypted) connections", "a blocked write accepts no byte at all (no partial writes inside a message)",
+    rep.assumptions += ["plain and RC4 (MSE) connections; the MSE negotiation itself is C06's", "a blocked write accepts no byte at all (no partial writes inside a message)",
                         "integers in peer messages fit int64", "each scripted peer index connects at most once per case",
                         "fetcher side: safety (completion only with verified metadata) and request ids; not liveness",
                         "observation (liveness against lying providers is not claimed by C20): the first peer's metadata_size wins, so one peer lying about the size makes later honest peers get 'size mismatch' and the magnet never completes; a hash-failed metadata chunk was not re-requested from the same peer on a tick"]
